@@ -205,7 +205,7 @@ def Text_SessionManager_getTokenChunkSessions : Prop := text_SessionManager_getT
 def expectedText_SessionData_Save : List String := ["isSecure := strings.HasPrefix(r.URL.Scheme, \"https\") || sd.manager.forceHTTPS", "options := sd.manager.getSessionOptions(isSecure)", "sd.mainSession.Options = options", "sd.accessSession.Options = options", "sd.refreshSession.Options = options", "if err := sd.mainSession.Save(r, w); err != nil { return fmt.Errorf(\"failed to save main session: %w\", err) }", "if err := sd.accessSession.Save(r, w); err != nil { return fmt.Errorf(\"failed to save access token session: %w\", err) }", "if err := sd.refreshSession.Save(r, w); err != nil { return fmt.Errorf(\"failed to save refresh token session: %w\", err) }", "for _, session := range sd.accessTokenChunks { session.Options = options if err := session.Save(r, w); err != nil { return fmt.Errorf(\"failed to save access token chunk session: %w\", err) } }", "for _, session := range sd.refreshTokenChunks { session.Options = options if err := session.Save(r, w); err != nil { return fmt.Errorf(\"failed to save refresh token chunk session: %w\", err) } }", "sd.deleteStaleChunkCookies(r, w, accessTokenCookie, len(sd.accessTokenChunks), options)", "sd.deleteStaleChunkCookies(r, w, refreshTokenCookie, len(sd.refreshTokenChunks), options)", "return nil"]
 def Text_SessionData_Save : Prop := text_SessionData_Save = expectedText_SessionData_Save
 
-def expectedText_SessionData_deleteStaleChunkCookies : List String := ["prefix := baseName + \"_\"", "var names []string", "for _, c := range r.Cookies() { names = append(names, c.Name) }", "for _, line := range w.Header()[\"Set-Cookie\"] { if i := strings.IndexByte(line, '='); i > 0 { names = append(names, line[:i]) } }", "seen := make(map[string]struct{})", "for _, name := range names { if !strings.HasPrefix(name, prefix) { continue } if _, dup := seen[name]; dup { continue } seen[name] = struct{}{} index, err := strconv.Atoi(name[len(prefix):]) if err != nil || index < keep { continue } expired := *options expired.MaxAge = -1 http.SetCookie(w, sessions.NewCookie(name, \"\", &expired)) }"]
+def expectedText_SessionData_deleteStaleChunkCookies : List String := ["prefix := baseName + \"_\"", "var names []string", "for _, c := range r.Cookies() { names = append(names, c.Name) }", "for _, line := range w.Header()[\"Set-Cookie\"] { if i := strings.IndexByte(line, '='); i > 0 { names = append(names, line[:i]) } }", "seen := make(map[string]struct{})", "for _, name := range names { if !strings.HasPrefix(name, prefix) { continue } if _, dup := seen[name]; dup { continue } seen[name] = struct{}{} index, err := strconv.Atoi(name[len(prefix):]) if err != nil || index < keep { continue } if name != prefix+strconv.Itoa(index) { continue } expired := *options expired.MaxAge = -1 http.SetCookie(w, sessions.NewCookie(name, \"\", &expired)) }"]
 def Text_SessionData_deleteStaleChunkCookies : Prop := text_SessionData_deleteStaleChunkCookies = expectedText_SessionData_deleteStaleChunkCookies
 
 def expectedText_SessionData_Clear : List String := ["sd.mainSession.Options.MaxAge = -1", "sd.accessSession.Options.MaxAge = -1", "sd.refreshSession.Options.MaxAge = -1", "for k := range sd.mainSession.Values { delete(sd.mainSession.Values, k) }", "for k := range sd.accessSession.Values { delete(sd.accessSession.Values, k) }", "for k := range sd.refreshSession.Values { delete(sd.refreshSession.Values, k) }", "sd.clearTokenChunks(r, sd.accessTokenChunks)", "sd.clearTokenChunks(r, sd.refreshTokenChunks)", "var err error", "if w != nil { err = sd.Save(r, w) }", "return err"]
